@@ -17,6 +17,9 @@ fn main() {
         Box::new(c06_kernel::C06Kernel),
         Box::new(c06_api::C06Api),
         Box::new(api::ApiSuite { name: "c03_filter", gen: suites::gen_c03, salt: 0xC03 }),
+        Box::new(api::ApiSuite { name: "c05_order", gen: suites::gen_c05, salt: 0xC05 }),
+        Box::new(api::ApiSuite { name: "c04_group", gen: suites::gen_c04, salt: 0xC04 }),
+        Box::new(api::ApiSuite { name: "c02_layout", gen: suites::gen_c02, salt: 0xC02 }),
     ];
     lvharness::cli_main(v);
 }
